@@ -2057,3 +2057,9 @@ V('C13', 'leftover-not-stripped', TI, "    string = string.strip()\n    if strin
   "    if string.isalpha():\n        raise ValueError(\n            f\"Could not convert", 'R13.6')
 E('C13', 'join-format', TI, "        string = ' '.join((string[:start], string[end:]))\n",
   "        string = string[:start] + ' ' + string[end:]\n")
+
+# ----------------------------------------------------------------------------- R15.9
+V('C15', 'start-without-resolve', SIM, "            self._resolver.resolve()\n            self.finalize()\n", "            self.finalize()\n", 'R15.9',
+  note="seed C15-11: names registered after an explicit finalize() stay unresolved")
+V('C15', 'start-resolve-if-not-finalized', SIM, "            self._resolver.resolve()\n            self.finalize()\n",
+  "            if not self._finalized:\n                self._resolver.resolve()\n            self.finalize()\n", 'R15.9')
